@@ -176,7 +176,58 @@ class Extractor:
             return kind, carries, frees_here
         sw = [n for n in walk(body) if n.get('kind') == 'SwitchStmt']
         if len(sw) != 1:
-            self.unclassified.append('_process_error: expected exactly one switch statement, found %d' % len(sw)); return
+            # not the switch form.  An if-chain `if (code == K) throw X; ... throw Y;` is read as the same kind of table (so that the table
+            # theorem `process_error_every_code` decides about it and the executable model predicts it); any other shape is reported as
+            # unclassified with a placeholder description - the three-way run must still take place (seeded change C18-11: the check
+            # stopped with a build error here and never reached the calls on which C reports XRL_ERROR_MEMORY).
+            free_call = lambda st: any(n.get('kind') == 'CallExpr' and strip(n['inner'][0]).get('referencedDecl', {}).get('name') in ('xrl_error_free', 'xrl_clear_error') for n in walk(st))
+            codes = dict(self.error_codes)
+            cases = []; dflt = None; frees_top = False; frees_all = True; ok = (len(sw) == 0)
+            def cond_val(c):
+                c = strip(c)
+                if c.get('kind') != 'BinaryOperator' or c.get('opcode') != '==': return None
+                for side in c.get('inner', []):
+                    for n in walk(side):
+                        if n.get('kind') == 'DeclRefExpr' and n.get('referencedDecl', {}).get('kind') == 'EnumConstantDecl': return codes.get(n['referencedDecl'].get('name'))
+                        if n.get('kind') == 'IntegerLiteral': return int(n.get('value'))
+                return None
+            def chain(st):
+                """an if statement of the chain -> False when not of the recognised shape"""
+                nonlocal dflt, frees_all
+                inner = st.get('inner', [])
+                if st.get('hasInit') or st.get('hasVar') or len(inner) not in (2, 3): return False
+                v = cond_val(inner[0]); ti = throw_info(inner[1])
+                if v is None or ti is None: return False
+                if not (ti[2] or frees_top): frees_all = False
+                if all(c[0] != v for c in cases): cases.append((v, ti[0], ti[1]))
+                if len(inner) == 3:
+                    if inner[2].get('kind') == 'IfStmt': return chain(inner[2])
+                    te = throw_info(inner[2])
+                    if te is None: return False
+                    if not (te[2] or frees_top): frees_all = False
+                    dflt = (te[0], te[1])
+                return True
+            for st in body.get('inner', []):
+                if not ok or dflt is not None: break
+                k = st.get('kind')
+                if k == 'IfStmt':
+                    c0 = strip(st['inner'][0]) if st.get('inner') else {}
+                    # the leading `if (!error) return;` guard
+                    if not any(n.get('kind') == 'CXXThrowExpr' for n in walk(st)) and any(n.get('kind') == 'ReturnStmt' for n in walk(st)) and not cases: continue
+                    ok = chain(st)
+                elif any(n.get('kind') == 'CXXThrowExpr' for n in walk(st)):
+                    ti = throw_info(st)
+                    if ti is None: ok = False; break
+                    if not (ti[2] or frees_top): frees_all = False
+                    dflt = (ti[0], ti[1])
+                elif free_call(st): frees_top = True
+            if ok and dflt is not None:
+                self.pe = dict(cases=cases, dflt=dflt, frees=bool(frees_all), line=line)
+                return
+            self.unclassified.append('_process_error: neither one switch statement over the code nor an if-chain ending in a throw (switch statements: %d); '
+                                     'described as "every code -> runtime_error(message)" for the run, its table theorems cannot hold' % len(sw))
+            self.pe = dict(cases=[], dflt=('runtimeError', True), frees=any(free_call(st) for st in body.get('inner', [])), line=line)
+            return
         # release of the error object before the switch
         frees_top = False
         for st in body.get('inner', []):
